@@ -11,7 +11,8 @@
 (* (b) Storing an entry.  Writers (processes) execute                       *)
 (*   mkstemp -> header -> body -> closed -> renamed -> compiled -> loaded   *)
 (* on a shared directory; a process may crash at any step; a reader is a    *)
-(* fresh process that looks the entry up and executes what it finds.  The   *)
+(* fresh process that looks the entry up and executes what it finds; the    *)
+(* storage may run out under a writer (WriteFails).  The                    *)
 (* final name must never hold anything but a complete source for its key.   *)
 (***************************************************************************)
 EXTENDS Naturals, Sequences, FiniteSets, TLC
@@ -61,7 +62,17 @@ Crash(w) ==      \* the process dies before its next step
   /\ crashes' = crashes + 1
   /\ UNCHANGED <<temp, final, pyc>>
 
-Next == \E w \in Writers : Advance(w) \/ Crash(w)
+\* the storage runs out while the temporary file is written (no space left, file size limit): the write raises, the
+\* writer removes its temporary file and gives up -- it does not go on to rename what it has
+WriteFails(w) ==
+  /\ pc[w] > 0 /\ Steps[pc[w]] \in {"mkstemp", "header"} /\ crashes < MaxCrashes
+  /\ pc' = [pc EXCEPT ![w] = 0]
+  /\ temp' = [temp EXCEPT ![w] = "none"]
+  /\ sched' = Append(sched, [w |-> w, step |-> "writefails"])
+  /\ crashes' = crashes + 1
+  /\ UNCHANGED <<final, pyc>>
+
+Next == \E w \in Writers : Advance(w) \/ Crash(w) \/ WriteFails(w)
 Spec == Init /\ [][Next]_vars
 
 Quiescent == \A w \in Writers : pc[w] = 0 \/ pc[w] = Len(Steps)
